@@ -398,6 +398,75 @@ def evalApprox (op : String) (a : List Tok) (rhs : List Tok) : Option (Bool × S
       let okc := m.length == r.length && (List.zip m r).all fun (x, y) => (x - y).natAbs ≤ 2 + x.natAbs / 2 ^ 32
       some (okc && fToInt w.toNat (fOfBits off * y) == ru && fToInt w.toNat (fOfBits mn * y) == rmn && fToInt w.toNat (fOfBits mx * y) == rmx,
         s!"{showList m} {fToInt w.toNat (fOfBits off * y)}")
+  | "f_filterrepr32", [.int w, .int q, .int typ, .int sk, .int sv, .int fr, .int gdb, .int sdb, .int off, .int mn, .int mx,
+      .int period, .int bs, .int ys], [.list r, .int ru, .int rmn, .int rmx] =>
+    -- `BiquadRepr::<f32, C>::Filter(..).build::<f32>(..)`: everything in binary32; C = f32 (w = 0) or (w, q)
+    let x32 := f32OfBits
+    let gain := Float32.pow 10.0 (x32 gdb / 20.0)
+    let shelf := Float32.pow 10.0 (x32 sdb / 20.0)
+    let w0 := (6.283185307179586 : Float).toFloat32 * (x32 fr * x32 period)
+    let v := x32 sv
+    let shape : Shape Float32 := match sk with | 0 => .q v | 1 => .bandwidth v | _ => .slope v
+    let cfg : FilterCfg Float32 := ⟨w0, gain, shelf, shape⟩
+    let ((b0, b1, b2), a) := cfg.build float32Ops typ.toNat
+    let s := x32 bs
+    let ba : BA Float32 := ((b0 * s, b1 * s, b2 * s), a)
+    let y := x32 ys
+    let (c0, c1, c2, c3, c4) := biquadFromBa float32Ops (fun x => x) ba
+    -- fixed point: the model's own saturating quantisation, then compared as numbers
+    let m : List Float := if w == 0 then [c0, c1, c2, c3, c4].map Float32.toFloat
+      else [c0, c1, c2, c3, c4].map fun x => Float.ofInt (quantizeInt32 w.toNat q.toNat x)
+    let e : List Float := if w == 0 then r.map fun x => (x32 x).toFloat else r.map Float.ofInt
+    let sb := (m.take 3).foldl (fun acc v => if v.abs > acc then v.abs else acc) 1e-300
+    let sa := (m.drop 3).foldl (fun acc v => if v.abs > acc then v.abs else acc) 1e-300
+    let okc := m.length == e.length && (List.zip m e).zipIdx.all fun ((x, y), i) =>
+      (x.isNaN && y.isNaN) || x == y || (x - y).abs ≤ 4e-5 * (if i < 3 then sb else sa) + (if w == 0 then 0 else 2)
+    if w == 0 then
+      some (okc && f32eq (x32 off * y) (x32 ru) && f32eq (x32 mn * y) (x32 rmn) && f32eq (x32 mx * y) (x32 rmx),
+        s!"{showList (m.map fToBits)}")
+    else
+      some (okc && fToInt32 w.toNat (x32 off * y) == ru && fToInt32 w.toNat (x32 mn * y) == rmn && fToInt32 w.toNat (x32 mx * y) == rmx,
+        s!"{showList (m.map fToBits)} {fToInt32 w.toNat (x32 off * y)}")
+  | "f_pidreprT32", [.int w, .int q, .int period, .int order, .list gains, .list limits, .int bs, .int ys, .int setp, .int mn, .int mx],
+      [.list r, .int ru, .int rmn, .int rmx] =>
+    -- `Pid::<f32>::build::<C, f32>`: representation, builder and scaling all in binary32 (compared per gain)
+    let x32 := f32OfBits
+    let (g32, lim32) := pidReprArgs32 (gains.map x32) (limits.map x32) (x32 bs)
+    let off := -(x32 setp) * x32 ys
+    let fmn := x32 mn * x32 ys
+    let fmx := x32 mx * x32 ys
+    if w == 0 then
+      let (c0, c1, c2, c3, c4) := pidBuild float32Ops (fun x => x) (0 : Float32) (· + ·) (fun k x => Float32.ofInt k * x)
+        (x32 period) order.toNat g32 lim32
+      let rec' := fun (b0 b1 b2 a1 a2 : Float) => [b0 + b1 + b2, -(b1 + 2 * b2), b2, 1 + a1 + a2, -(a1 + 2 * a2), a2]
+      let m := rec' c0.toFloat c1.toFloat c2.toFloat c3.toFloat c4.toFloat
+      match r.map fun x => (x32 x).toFloat with
+      | [e0, e1, e2, e3, e4] =>
+        let e := rec' e0 e1 e2 e3 e4
+        -- f32 coefficients: the recovery itself cancels, so the error is relative to the largest coefficient
+        let sc := ([c0, c1, c2, c3, c4].map fun x => x.toFloat.abs).foldl (fun a b => if b > a then b else a) 1e-300
+        let okc := (List.zip m e).all fun (x, y) => (x.isNaN && y.isNaN) || x == y || (x - y).abs ≤ 2e-6 * (sc + 1)
+        let u := off.toFloat * (c0.toFloat + c1.toFloat + c2.toFloat)
+        let eu := (x32 ru).toFloat
+        let oku := (u.isNaN && eu.isNaN) || u == eu || (u - eu).abs ≤ 1e-5 * (off.toFloat.abs * sc + 1e-30)
+        some (okc && oku && f32eq fmn (x32 rmn) && f32eq fmx (x32 rmx), s!"{showList ([c0, c1, c2, c3, c4].map fun x => fToBits x.toFloat)}")
+      | _ => some (false, "arity")
+    else
+      let (c0, c1, c2, c3, c4) := pidBuild float32Ops (quantizeInt32 w.toNat q.toNat) (0 : Int) (· + ·) (fun k x => k * x)
+        (x32 period) order.toNat g32 lim32
+      let one : Int := 2 ^ q.toNat
+      let rec' := fun (b0 b1 b2 a1 a2 : Int) => [b0 + b1 + b2, -(b1 + 2 * b2), b2, one + a1 + a2, -(a1 + 2 * a2), a2]
+      match r with
+      | [e0, e1, e2, e3, e4] =>
+        let okc := (List.zip (rec' c0 c1 c2 c3 c4) (rec' e0 e1 e2 e3 e4)).zipIdx.all fun ((x, y), i) =>
+          (x - y).natAbs ≤ 2 + (if i == 3 then one else x.natAbs) / 2 ^ 18
+        let cfg : BiquadCfg := ⟨e0, e1, e2, e3, e4, 0, minI w.toNat, maxI w.toNat⟩
+        let u := biquadSetInputOffset .checked w.toNat q.toNat cfg (fToInt32 w.toNat off)
+        let oku := match u with
+          | .ok v => v == ru
+          | .error _ => false
+        some (okc && oku && fToInt32 w.toNat fmn == rmn && fToInt32 w.toNat fmx == rmx, s!"{showList [c0, c1, c2, c3, c4]} {rshow toString u}")
+      | _ => some (false, "arity")
   | "f_to_ba", [.int w, .int q, .list [c0, c1, c2, c3, c4]], [.list r] =>
     -- `<[[f64; 3]; 2]>::from(&Biquad<T>)`: the coefficients as f64 with a0 = ONE (no division)
     let cv : Int → Float := fun c => if w == 0 then fOfBits c else Float.ofInt c
